@@ -11,7 +11,7 @@ import _rustfn as R
 
 NAME = "SelOps"
 
-GUARD = r"if !self\.multi_selection \|\| self\.items\.is_empty\(\) \{ return; \}"
+GUARD = r"if (?:!self\.multi_selection \|\| self\.items\.is_empty\(\)|self\.items\.is_empty\(\) \|\| !self\.multi_selection) \{ return; \}"
 TOGGLE = (r"if !self\.selected\.contains_key\(&index\) \{ self\.selected\.insert\(index, current_item\.item\.clone\(\)\); \} "
           r"else \{ self\.selected\.remove\(&index\); \}")
 
@@ -23,8 +23,11 @@ def norm(b):
 
 
 KEY = r"\((?:run_num|current_run_num\(\)), current_item\.item_idx\)"
+TOGGLE_INV = (r"if self\.selected\.contains_key\(&index\) \{ self\.selected\.remove\(&index\); \} "
+              r"else \{ self\.selected\.insert\(index, current_item\.item\.clone\(\)\); \}")
 INNER = [
     (r"let index = " + KEY + r"; " + TOGGLE, ".toggle"),
+    (r"let index = " + KEY + r"; " + TOGGLE_INV, ".toggle"),
     (r"let index = " + KEY + r"; self\.selected\.insert\(index, current_item\.item\.clone\(\)\);", ".insert"),
     (r"let item = current_item\.item\.clone\(\); self\.selected\.insert\(" + KEY + r", item\);", ".insert"),
     (r"self\.selected\.insert\(" + KEY + r", current_item\.item\.clone\(\)\);", ".insert"),
@@ -95,8 +98,13 @@ def extract(repo):
     head = R.translate(body[i:m.start()], A, result="(latest, wm)")
     # what follows the append up to the first `if` of the cursor fix-up: the watermark update (the height is C09's business)
     tail_src = re.sub(r"//[^\n]*", "", m.group(2)).replace("let height = self.known_height();", "")
+    # the update may itself be spelled as an `if` (`if len > wm { wm = len }`): then it sits before `let height = ..`
+    after = re.sub(r"//[^\n]*", "", body[m.start(2):])
+    ih = after.find("let height = self.known_height();")
+    if "self.pre_selected_watermark" not in tail_src and ih > 0 and "self.pre_selected_watermark" in after[:ih]:
+        tail_src = after[:ih]
     if "self.pre_selected_watermark" not in tail_src:
-        if "self.pre_selected_watermark" in body[m.end(2):]:
+        if "self.pre_selected_watermark" in after:
             raise R.Unsupported("append_sorted_items: the watermark is updated inside or after the cursor fix-up")
         tail_src = "self.pre_selected_watermark = self.pre_selected_watermark;"     # never updated after the append: read as such
     cond = R.translate(m.group(1), A)
